@@ -74,7 +74,7 @@ where
     /// from the top. Uses string representation for comparison
     /// (deep)
     pub fn equal_at(&self, i: usize, el: &T) -> Option<bool> {
-        if i > self.size() {
+        if i >= self.size() {
             None
         } else {
             Some(self.elements[self.size() - (i + 1)].to_string() == *el.to_string())
